@@ -507,7 +507,7 @@ def checkpoint_replaces(ctx, rule='CKP'):
                   'the preceding links are added to a chain that may still hold them from an earlier run: on a later run of the '
                   'same Flow object (retry after a failure, refresh after deleting the checkpoint) every step before the '
                   'checkpoint runs twice')
-    fl = repo.cls('dataflows.base.flow:Flow').methods['_preprocess_chain']
+    fl = ctx.N(repo.cls('dataflows.base.flow:Flow').methods['_preprocess_chain'])
     ok = any(isinstance(n, ast.Assign) and isinstance(n.value, ast.Call) and isinstance(n.value.func, ast.Attribute) and
              n.value.func.attr == 'handle_flow_checkpoint' and pseudo(n.targets[0]) in [pseudo(a) for a in n.value.args]
              for n in own_nodes(fl.node))
